@@ -27,4 +27,8 @@ MCCovers ==
 AclAll   == SUBSET MCNets
 (* for the view-order configs: the open default, a two-family list, a list that is only unparsable *)
 AclViews == {{}, {"v4net", "v6net"}, {"v4all", "bad"}}
+AdmitAll(a, v) == TRUE
+(* quick tier: every access list against at most one view, and three access lists
+   against every pair of views *)
+AdmitQuick(a, v) == Len(v) <= 1 \/ a \in AclViews
 =============================================================================
